@@ -88,6 +88,8 @@ def build(e, V, variant):
         l, r = term(e[2], V), term(e[3], V)
         op = e[1]
         return {"eq": lambda: l == r, "ne": lambda: l != r, "lt": lambda: l < r, "ge": lambda: l >= r}[op]()
+    if k == "truth":
+        return term(e[1], V)          # the attribute expression itself is the condition
     if k == "scmp":
         l, r = term(e[2], V), term(e[3], V)
         return (l < r) if e[1] == "lt" else (l >= r)
